@@ -195,6 +195,7 @@ def run_pipe(spec, res):
     from .. import programs, observe as ob
     from ..common import import_lazy_dataset
     from ..terms import Fn
+    from .c20 import shared_random
     ld = import_lazy_dataset()
     rng = rng_for(spec['seed'], PROPERTY, spec['name'])
     srcs = [('dict', 5, 'pickle'), ('list', 7, 'pickle'), ('dict', 2, 'copy'),
@@ -234,7 +235,13 @@ def run_pipe(spec, res):
                 ('prefetch(3,4,t)', lambda d: d.prefetch(3, 4, 't'), True),
                 ('prefetch(1,2)', lambda d: d.prefetch(1, 2), False),
                 ('map(g,num_workers=2,buffer=3)',
-                 lambda d: d.map(Fn('g'), num_workers=2, buffer_size=3), False)]
+                 lambda d: d.map(Fn('g'), num_workers=2, buffer_size=3), False),
+                # the parallel stage consumed through a copy of itself
+                ('prefetch(2,3,t).copy()', lambda d: d.prefetch(2, 3, 't').copy(), True),
+                ('ProfilingDataset(prefetch(2,2,t))',
+                 lambda d: ld.core.ProfilingDataset(d.prefetch(2, 2, 't')), True),
+                ('map(g,num_workers=2,buffer=2).copy()',
+                 lambda d: d.map(Fn('g'), num_workers=2, buffer_size=2).copy(), False)]
     for prog in progs():
         status, m = programs.classify(prog)
         if status != 'ok' or not m.finite or m.n < 1:
@@ -246,6 +253,11 @@ def run_pipe(spec, res):
                 for name, wrap, needs_index in variants:
                     if needs_index and not (getattr(m, 'findexable', m.indexable)
                                             and m.sized and m.copyable):
+                        continue
+                    if ('copy()' in name or 'Profiling' in name) and shared_random(prog):
+                        # a copy splits the two references to one reshuffle
+                        # (known finding C13-copy-splits-shared-reshuffle):
+                        # about copy(), not about the parallel stage
                         continue
                     base = programs.build(ld, prog)
                     # the plain twin, epoch by epoch (matters for seeded shuffles)
@@ -282,6 +294,30 @@ def run_pipe(spec, res):
                             res.violation('len-differs', {**case, 'stage': name},
                                           {'len': ln, 'want': len(ref)},
                                           sig={'entry': 'pipeline'})
+                    # key iteration, three epochs over one object, against the
+                    # plain twin's key iteration (fresh, equally seeded builds)
+                    if 'Profiling' in name:
+                        continue
+                    twin = programs.build(ld, prog)
+                    ti = ob.guarded(lambda: [list(twin.items()) for _ in range(3)])
+                    if ob.is_err(ti):
+                        continue
+                    if 'map(g' in name:
+                        ti = [[(k, ('g', v)) for k, v in ep] for ep in ti]
+                    dk = wrap(programs.build(ld, prog))
+                    gi = ob.guarded(lambda: [list(dk.items()) for _ in range(3)])
+                    if ob.is_err(gi) and m.labelstate != 'unique':
+                        # keyed pool prefetch fetches by key: over duplicated
+                        # keys it refuses loudly (C03 allows that)
+                        res.count('keyed_iteration_over_duplicated_keys_refused')
+                        continue
+                    res.count('keyed_pipeline_transparency_comparisons')
+                    if gi != ti:
+                        res.violation('delivered-sequence-differs',
+                                      {**case, 'stage': name, 'keyed': True},
+                                      {'delivered_epochs': gi, 'want_epochs': ti},
+                                      sig={'entry': 'pipeline', 'stage': name.split('(')[0],
+                                           'keyed': True})
         except ob.Watchdog:
             res.inconclusive_because(f'watchdog on {prog!r}')
 
